@@ -29,7 +29,7 @@ RULE = ("per model (defaults of HEM/Merton/VG/CGMY, one CGMY draw per activity b
         "zoo.draw_params draws): break points -inf < 2-3 log-uniform negative points < 0 < 2-3 positive points < inf; every "
         "pair a <= b of break points (one side, straddling, touching 0, finite / infinite ends, degenerate) x n = 0..6 x both "
         "API routes (integrate/_x/_xx and integrate_against_xn); reference = sum of mpmath.quad pieces (30 digits, split at 0 "
-        "and at the break points, error estimate <= 1e-15 relative + 1e-25 or the case is skipped). A combination is skipped (counted) "
+        "and at the break points, x = +-t^m substituted on pieces touching 0 for VG/CGMY; error estimate <= 1e-15 relative + 1e-25 or the case is skipped). A combination is skipped (counted) "
         "when x^n*nu is not integrable at a 0 inside the closed interval (VG: n = 0; CGMY: n <= y) -- this includes the "
         "degenerate interval [0,0] there. Tolerance: 1e-8*|ref| + 1e-12 + 1e-13*(one-sided tail moment that the closed form "
         "subtracts; Merton: the absolute moment over R); routes that the implementation evaluates with scipy.integrate.quad "
@@ -157,9 +157,18 @@ class Ref:
             self.cache[key] = None
             return None
         inner = [e for e in self.extra if lo < e < hi]
-        pts = [M(lo)] + [M(e) for e in inner] + [M(hi)]
         f = self.f
-        v, err = mp.quad(lambda x: x ** n * f(x), pts, error=True)
+        m = 1
+        if (lo == 0 or hi == 0) and self.y is not None and not math.isinf(lo) and not math.isinf(hi):
+            m = max(1, math.ceil(3 / (n - self.y)))      # integrand ~ |x|^(n-1-y) at 0: x = ±t^m makes it smooth
+        if m > 1:
+            sgn, top = (1, hi) if lo == 0 else (-1, -lo)
+            rt = lambda z: M(z) ** (mp.mpf(1) / m)
+            pts = [mp.mpf(0)] + sorted(rt(abs(e)) for e in inner) + [rt(top)]
+            v, err = mp.quad(lambda t: (sgn * t ** m) ** n * f(sgn * t ** m) * m * t ** (m - 1), pts, error=True)
+        else:
+            pts = [M(lo)] + [M(e) for e in inner] + [M(hi)]
+            v, err = mp.quad(lambda x: x ** n * f(x), pts, error=True)
         ok = err <= mp.mpf(10) ** -15 * abs(v) + mp.mpf(10) ** -25
         self.cache[key] = v if ok else None
         if not ok:
